@@ -194,6 +194,13 @@ static void run_program(Rng& r) {
     size_t a = r.below(alive.size()), b = r.below(alive.size());
     if (a == b) continue;
     size_t ia = alive[a], ib = alive[b];
+    if (r.chance(0.2)) {   // a sketch merged with itself stands for its stream twice
+      auto& self = *sk[ia];
+      self.merge(self);
+      const auto twice = md[ia]; md[ia].merge(twice);
+      observe(*sk[ia], md[ia], universe, r, "self-merge", K + "self-merge|");
+      count(md[ia].total > 0 ? "self_merge_nonempty" : "self_merge_empty");
+    }
     if (sk[ib]->get_num_active_items() == 0 && md[ib].total > 0) count("merge_of_all_purged_source");
     if (sk[ib]->get_maximum_error() > 0) count("merge_of_purged_source");
     if (r.coin()) { sk[ia]->merge(*sk[ib]); observe(*sk[ib], md[ib], universe, r, "merge-source-unchanged", K + "merge-source|"); count("merge_lvalue"); }
